@@ -205,11 +205,66 @@ def callee_paths(t):
     cal = t['callee']
     return [x for x in (cal.get('resolved'), cal.get('path')) if x]
 
+def rename_fields(j, notes):
+    """private struct fields that were renamed (same struct path, same field types in the same order, different names) get
+    their reviewed names back in every place projection, aggregate and the ADT table"""
+    S = audit().get('structs', {})
+    ren = {}     # struct path -> {index: (new, old)}
+    for a in j['adts']:
+        rec = S.get(a['path'])
+        if rec is None or a['kind'] != 'struct' or not a['variants']:
+            continue
+        fs_ = a['variants'][0]['fields']
+        if len(fs_) != len(rec) or [norm_sig([f['ty']])[0] for f in fs_] != [r[1] for r in rec]:
+            continue
+        m = {i: (f['name'], rec[i][0]) for i, f in enumerate(fs_) if f['name'] != rec[i][0]}
+        if m:
+            ren[a['path']] = m
+            for i, (new, old) in m.items():
+                fs_[i]['name'] = old
+                notes['renamed'].append(['%s.%s' % (a['path'], new), '%s.%s' % (a['path'], old)])
+    if not ren:
+        return
+    def base(ty):
+        return re.sub(r'<.*$', '', ty or '').lstrip('&').replace('mut ', '').strip()
+    def fix_place(p):
+        if not p: return
+        for pr in p[1]:
+            if pr and pr[0] == 'f' and len(pr) >= 5:
+                m = ren.get(base(pr[4]))
+                if m and pr[1] in m and pr[2] == m[pr[1]][0]:
+                    pr[2] = m[pr[1]][1]
+    def fix_op(op):
+        if isinstance(op, list) and op and op[0] in ('cp', 'mv'):
+            fix_place(op[1])
+    for b in j['bodies']:
+        for d in b.get('debug', []):
+            fix_place(d.get('place'))
+        for blk in b['blocks']:
+            for st in blk['stmts']:
+                fix_place(st.get('lhs'))
+                rv = st.get('rv') or {}
+                for k in ('op', 'a', 'b'):
+                    if k in rv: fix_op(rv[k])
+                if 'place' in rv: fix_place(rv['place'])
+                for f in rv.get('fields') or []: fix_op(f)
+                if rv.get('adt') in ren and rv.get('field_names'):
+                    m = ren[rv['adt']]
+                    rv['field_names'] = [m[i][1] if (i in m and n == m[i][0]) else n for i, n in enumerate(rv['field_names'])]
+            t = blk['term']
+            for k in ('op', 'cond'):
+                if k in t: fix_op(t[k])
+            for a in t.get('args', []) or []: fix_op(a)
+            for a in t.get('ops', []) or []: fix_op(a)
+            if t.get('dest'): fix_place(t['dest'])
+            if t.get('place'): fix_place(t['place'])
+
 def normalise(j, cfg_features):
     """in-place; returns a dict describing what was done"""
     notes = {'renamed': [], 'inlined': [], 'unmatched_new': [], 'missing_reviewed': []}
     if j.get('crate') != 'bpaf' or not os.path.exists(AUDIT_PATH):
         return notes
+    rename_fields(j, notes)
     A = audit()['functions']
     by = {b['path']: b for b in j['bodies']}
     fns = {p: b for p, b in by.items() if b['kind'] != 'closure'}
